@@ -83,6 +83,17 @@ CHECKS = {
              "x -> a*x + b with a in N+, b in N, plus permutation/repetition type identity and 'is an input when possible'.",
         note="Generated origins are kept small so that the library's own long long arithmetic cannot overflow.  Definitions of the temperature units are inputs.",
         technique="TLA+ fold/gcd model checked by TLC + read-outs of compiled common point units validated by TLC (BigInt rationals)", ref="6/C10"),
+    "C01": dict(
+        text="Every operation that needs a common unit is an action of the type-state machine guarded by SameDim; TLC decides the guard for "
+             "every ordered pair of unit expressions (all base dimensions, dimensionless, compound, scaled, powered, prefixed; denotation by "
+             "exponent maps over the real catalogue).  Each disabled (pair, operation) -- ~60 operation forms on quantities and points incl. "
+             "+ - == < <=> % += construction assignment .as/.in/.coerce_* min/max/clamp hypot fmod remainder arctan2 rounding inverse_* "
+             "common_type -- is compiled as a one-statement probe that must be rejected, the same statement on a same-dimension twin must "
+             "compile, and is_convertible / is_constructible / common_type questions must answer false (true for twins) without a hard "
+             "error (bisected to the single question).",
+        note="Observable = compiler verdicts (g++ 12, clang++ 14; precompiled prelude).  Same-dimension twins use floating reps or identical "
+             "units so that the conversion policy cannot interfere.  Pair sample is seeded in the quick tier.",
+        technique="TLA+ denotation decides action guards (TLC) + one-probe compiles that must fail with compiling twins + trait TUs", ref="6/C01"),
 }
 
 
